@@ -767,6 +767,9 @@ fn replay_tour(
     let mut legs = 0u64;
     let mut waits = 0u64;
     let mut partial = false;
+    // document-only accumulators (used for the weak statistic rules of partially replayed tours)
+    let mut doc_break = 0i64;
+    let mut doc_acts = 0i64;
     let mut break_defs_used: Vec<bool> = vec![false; shift.breaks.len()];
     let mut reload_defs_used: Vec<bool> = vec![false; shift.reloads.len()];
     let mut customer_activities = 0i64;
@@ -782,6 +785,16 @@ fn replay_tour(
         let st_dep = stop["time"]["departure"].as_str().and_then(parse_time).ok_or("stop.time.departure")?;
         stop_loads.push(stop.get("load").map(|l| int_list(Some(l))));
         let activities = stop["activities"].as_array().ok_or("stop.activities")?;
+        for a in activities.iter() {
+            doc_acts += 1;
+            if a["type"].as_str() == Some("break") {
+                let (bs, be) = match a.get("time").filter(|t| !t.is_null()) {
+                    Some(t) => (t["start"].as_str().and_then(parse_time).ok_or("activity.time.start")?, t["end"].as_str().and_then(parse_time).ok_or("activity.time.end")?),
+                    None => (st_arr, st_dep),
+                };
+                doc_break += be - bs;
+            }
+        }
         let Some(loc_v) = stop.get("location") else {
             // transit stop: required break (reserved time) - replayed only partially
             rep.partial.insert("transit-stop".into());
@@ -790,6 +803,12 @@ fn replay_tour(
             continue;
         };
         let loc = p.locmap.get(loc_v)?;
+        // a required break rendered inside a point stop stretches the activity it interrupts, which is listed before it: the whole
+        // stop is replayed partially (a shift has either required or optional breaks in this workload)
+        if shift.required_breaks > 0 && shift.breaks.is_empty() && activities.iter().any(|a| a["type"].as_str() == Some("break")) {
+            rep.partial.insert("required-break".into());
+            partial = true;
+        }
         if sidx == 0 {
             if loc != shift.start_loc {
                 rep.issue("C01", "shift-start-location", format!("tour {ti} starts at location {loc}, shift start is {}", shift.start_loc));
@@ -1454,6 +1473,50 @@ fn replay_tour(
             rep.issue("C03", "tour-cost", format!("tour {ti}: reported cost {r_cost}, fixed + distance*cd + duration*ct = {my_cost}"));
         }
         rep.rule("tour-statistic", true);
+    } else {
+        // Partially replayed tour (required break / recharge / commute): the times are not recomputed from the matrices, but the
+        // statistic still has to agree with the reported visiting order and times of the document itself:
+        //  (W1) duration = arrival at the last stop - departure from the first stop
+        //  (W2) the driving/serving/waiting/break/commuting/parking split adds up to the duration (each term is truncated once per activity)
+        //  (W3) times.break = the time of the break activities which the tour shows
+        //  (W4) distance = cumulative distance of the last stop (tours without clustered stops)
+        // the tour starts with its departure activity (which carries its own time when the first stop also serves jobs) and
+        // ends when the last stop is left (the arrival activity has no duration; an open tour ends with its last job)
+        let first_dep = {
+            let s0 = &stops[0];
+            let a0 = s0["activities"].as_array().and_then(|a| a.first());
+            match a0.and_then(|a| a.get("time")).filter(|t| !t.is_null()) {
+                Some(t) => t["end"].as_str().and_then(parse_time).ok_or("departure activity time")?,
+                None => s0["time"]["departure"].as_str().and_then(parse_time).ok_or("first stop departure")?,
+            }
+        };
+        let last_arr = stops.last().and_then(|s| s["time"]["departure"].as_str()).and_then(parse_time).ok_or("last stop departure")?;
+        let r_dur = stat["duration"].as_i64().unwrap_or(-1);
+        let saved = std::mem::replace(&mut rep.cur_ctx, "partially-replayed".into());
+        if (r_dur - (last_arr - first_dep)).abs() > 1 {
+            rep.issue("C03", "tour-duration", format!("tour {ti}: reported duration {r_dur}, end of the last stop - departure = {}", last_arr - first_dep));
+        }
+        let times = &stat["times"];
+        let g = |k: &str| times.get(k).and_then(|v| v.as_i64()).unwrap_or(0);
+        let split = g("driving") + g("serving") + g("waiting") + g("break") + g("commuting") + g("parking");
+        // every activity contributes up to four truncated terms (driving, waiting, serving/break, commuting)
+        let split_tol = 4 * doc_acts + 2;
+        if (split - r_dur).abs() > split_tol {
+            rep.issue("C03", "times-split", format!("tour {ti}: driving+serving+waiting+break+commuting+parking = {split}, duration {r_dur} (tolerance {split_tol})"));
+        }
+        let rb = g("break");
+        if rb != doc_break {
+            rep.issue("C03", "times-break", format!("tour {ti}: reported break {rb}, break activities shown in the tour take {doc_break}"));
+        }
+        if clustered_stops.is_empty() {
+            let r_dist = stat["distance"].as_i64().unwrap_or(-1);
+            let last_dist = stops.iter().rev().find_map(|s| s.get("distance").and_then(|d| d.as_i64())).unwrap_or(-1);
+            if r_dist != last_dist {
+                rep.issue("C03", "tour-distance", format!("tour {ti}: reported distance {r_dist}, cumulative distance of the last stop {last_dist}"));
+            }
+        }
+        rep.cur_ctx = saved;
+        rep.rule("tour-statistic-weak", true);
     }
     Ok(())
 }
